@@ -350,7 +350,7 @@ def driver_available(component: str) -> bool:
     if component not in _DRIVER_OK:
         ok = False
         try:
-            if DRIVER.exists():
+            if True:                      # run_driver waits for the binary while a concurrent build re-links it
                 if component == "breaker":
                     out = run_driver("breaker", "new 2 8 4 none -\nallow 0\n").split("\n")
                     ok = out[0] == "ok" and out[1].startswith("allowed 1 closed - | st=closed;")
@@ -981,30 +981,82 @@ def _export(ex: "Explorer") -> dict:
             "backend": dict(ex.backend_used)}
 
 
-def _worker_explore(job: dict) -> dict:
-    """runs in a child process: plain DFS (every interleaving) of the given cases"""
+def _worker_main() -> int:
+    """`python -m harness.families.threads _worker`: child process doing PLAIN DFS (every interleaving)
+    of the cases of a job read from stdin; appends one JSON line per finished case to job['out']
+    (each line carries the cumulative export, so a killed worker loses only its current case)."""
+    job = json.loads(sys.stdin.read())
     old_time = _rb.time
     _rb.time = Shim(monotonic=_budget_monotonic)
     try:
-        info = extract_locks.extract(REPO)
+        try:
+            info = extract_locks.extract(REPO)
+        except (extract_locks.ExtractError, SyntaxError):
+            info = None                      # reported by the parent; explore without extraction validation
         ex = Explorer(info, Counter())
-        out = []
-        for (name, case) in job["cases"]:
-            if time.time() > job["deadline"]:
-                out.append({"name": name, "case": case, "skipped": True})
-                continue
-            fn = _named_fn(name)
-            s = ex.explore_case(case, named=(name, fn) if fn else None, max_schedules=job["cap"],
-                                deadline=job["deadline"], reduce=job["reduce"])
-            s["outcome_set"] = sorted(map(repr, s["outcomes"]))
-            s["outcomes"] = len(s["outcomes"])
-            out.append({"name": name, "case": case, "summary": s})
-        res = _export(ex)
-        res["cases"] = out
-        return res
+        with open(job["out"], "a") as fh:
+            for (name, case) in job["cases"]:
+                if time.time() > job["deadline"]:
+                    rec = {"name": name, "case": case, "skipped": True}
+                else:
+                    fn = _named_fn(name)
+                    s = ex.explore_case(case, named=(name, fn) if fn else None, max_schedules=job["cap"],
+                                        deadline=job["deadline"], reduce=job["reduce"])
+                    s["outcome_set"] = sorted(map(repr, s["outcomes"]))
+                    s["outcomes"] = len(s["outcomes"])
+                    rec = {"name": name, "case": case, "summary": s}
+                rec["export"] = _export(ex)
+                fh.write(json.dumps(rec) + "\n")
+                fh.flush()
+        return 0
     finally:
         _rb.time = old_time
         _CLOCK[0] = None
+
+
+def _spawn_workers(jobs: list, nproc: int, cap: int, deadline: float) -> list:
+    """static round-robin partition of the plain-DFS jobs over `nproc` independent child processes"""
+    import tempfile
+    workers = []
+    parts = [jobs[i::nproc] for i in range(nproc)]
+    for part in parts:
+        if not part:
+            continue
+        fd, out = tempfile.mkstemp(prefix="c17-plain-", suffix=".jsonl")
+        os.close(fd)
+        p = subprocess.Popen([sys.executable, "-m", "harness.families.threads", "_worker"], cwd=str(LEAN_DIR.parent),
+                             stdin=subprocess.PIPE, stdout=subprocess.DEVNULL, stderr=subprocess.PIPE, text=True)
+        p.stdin.write(json.dumps({"cases": part, "cap": cap, "deadline": deadline, "reduce": False, "out": out}))
+        p.stdin.close()
+        workers.append((p, out, len(part)))
+    return workers
+
+
+def _collect_workers(workers: list, hard_deadline: float) -> tuple[list[dict], list[dict], bool]:
+    """returns (per-case records, one cumulative export per worker, all workers finished all their cases?)"""
+    recs: list[dict] = []
+    exports: list[dict] = []
+    complete = True
+    for (p, out, n) in workers:
+        try:
+            p.wait(timeout=max(0.1, hard_deadline - time.time()))
+        except subprocess.TimeoutExpired:
+            p.kill()
+            p.wait()
+            complete = False
+        err = p.stderr.read() if p.stderr else ""
+        lines = [json.loads(l) for l in Path(out).read_text().splitlines() if l.strip()]
+        os.unlink(out)
+        if p.returncode not in (0, -9):
+            raise RuntimeError(f"threads family: plain-DFS worker failed (rc={p.returncode}):\n{err[-3000:]}")
+        if len(lines) < n:
+            complete = False
+        if lines:
+            exports.append(lines[-1]["export"])
+        for l in lines:
+            l.pop("export", None)
+            recs.append(l)
+    return recs, exports, complete
 
 
 def run(tier: str, seed: int) -> dict:
@@ -1041,14 +1093,7 @@ def run(tier: str, seed: int) -> dict:
         seenk = {_case_key(c) for _, c in plain_jobs}
         plain_jobs += [(n, c) for n, c in extra if _case_key(c) not in seenk]
     plain_jobs.sort(key=lambda nc: (prio(nc[1]), 0 if nc[0] else 1))
-    import concurrent.futures as cf
-    import multiprocessing as mp
-    pool = cf.ProcessPoolExecutor(max_workers=nproc, mp_context=mp.get_context("spawn"))
-    chunk = 1 if tier == "quick" else 6
-    futures = []
-    for i in range(0, len(plain_jobs), chunk):
-        futures.append(pool.submit(_worker_explore, {"cases": plain_jobs[i:i + chunk], "cap": plain_cap,
-                                                     "deadline": deadline, "reduce": False}))
+    workers = _spawn_workers(plain_jobs, nproc, plain_cap, deadline)
 
     # ---- sleep-set DFS in this process ----------------------------------------------------------------
     old_time = _rb.time
@@ -1127,10 +1172,11 @@ def run(tier: str, seed: int) -> dict:
                     complete = False
                 done_keys.add(_case_key(case))
                 explored += 1
-            dist["sets"][setname] = {"mode": "sleep-set DFS", "programs": len(cases), "explored": explored,
+            dist["sets"][setname] = {"mode": "sleep-set DFS", "complete_program_space": bool(must),
+                                     "programs": len(cases), "explored": explored,
                                      "every_program_fully_enumerated": complete and explored == len(cases),
                                      "complete_interleavings": ex.schedules - before}
-            if not (complete and explored == len(cases)):
+            if must and not (complete and explored == len(cases)):
                 all_exhaustive = False
     finally:
         _rb.time = old_time
@@ -1140,15 +1186,12 @@ def run(tier: str, seed: int) -> dict:
     exports = [_export(ex)]
     plain = {"programs": len(plain_jobs), "explored": 0, "fully_enumerated": 0, "complete_interleavings": 0,
              "processes": nproc, "largest_program_interleavings": 0}
-    for f in futures:
-        try:
-            res = f.result(timeout=max(0.1, hard_deadline - time.time()))
-        except cf.TimeoutError:
-            f.cancel()
-            all_exhaustive = False
-            continue
-        exports.append(res)
-        for c in res["cases"]:
+    recs, wexports, wcomplete = _collect_workers(workers, hard_deadline)
+    exports.extend(wexports)
+    if not wcomplete:
+        all_exhaustive = False
+    if True:
+        for c in recs:
             if c.get("skipped"):
                 all_exhaustive = False
                 continue
@@ -1174,7 +1217,6 @@ def run(tier: str, seed: int) -> dict:
                                    "distinct_outcomes": s["outcomes"], "sequential_outcomes": s["sequential_outcomes"],
                                    "exhaustive": s["exhaustive"], "longest_schedule": s["maxlen"],
                                    "blocked_lock_attempts": s["blocked"]})
-    pool.shutdown(wait=False, cancel_futures=True)
     dist["plain_dfs"] = plain
 
     # ---- merge -------------------------------------------------------------------------------------------------
@@ -1239,7 +1281,10 @@ def run(tier: str, seed: int) -> dict:
                 "outermost frame, deep state unchanged) — used for every case. evaluations = complete interleavings executed on the "
                 "real code and compared with the set of sequential outcomes of the Lean model (driver breaker/budget); "
                 "distinct = distinct cases; non-trivial = the sequential orderings of the case have >= 2 different outcomes; "
-                "exhaustive = every planned program of the tier was fully enumerated in its mode(s) within the time budget",
+                "exhaustive = every COMPLETE program space of the tier (distribution.sets[*].complete_program_space: all op pairs x all "
+                "initial states x fixed/advanced clock; per-class races; in the thorough tier also all (2,1)-op programs) and every named "
+                "case had all its interleavings enumerated (sleep-set DFS, plus plain DFS where listed in distribution.plain_dfs); the "
+                "seeded samples of larger programs are additional and are not a space",
         "samples": samples[:10],
         "distribution": dist,
         "exhaustive": bool(all_exhaustive),
@@ -1250,7 +1295,10 @@ def run(tier: str, seed: int) -> dict:
 
 def replay(case: dict) -> dict:
     """re-run one recorded case under its recorded schedule (or explore it fully if no schedule is given)"""
-    info = extract_locks.extract(REPO)
+    try:
+        info = extract_locks.extract(REPO)
+    except (extract_locks.ExtractError, SyntaxError):
+        info = None
     old_time = _rb.time
     _rb.time = Shim(monotonic=_budget_monotonic)
     try:
@@ -1265,7 +1313,16 @@ def replay(case: dict) -> dict:
                     "failures": [{k: v for k, v in f.items() if k != "_cost"} for f in ex.violations.values()]
                     + list(ex.validator.problems.values())}
         r = sched.run_once(ex._setup(case), ex._bodies(case), len(case["threads"]), ex.files, list(case["schedule"]))
-        out = {"schedule": r.trace, "deadlock": r.deadlock, "errors": r.errors}
+        out = {"recorded_schedule": " ".join(map(str, case["schedule"])), "executed_schedule": " ".join(map(str, r.trace)),
+               "deadlock": r.deadlock}
+        if r.errors:
+            # the recorded schedule does not fit this tree (different code => different steps): explore the case instead
+            s = ex.explore_case({k: v for k, v in case.items() if k != "schedule"}, max_schedules=200000, reduce=True)
+            out.update({"schedule_replayable_on_this_tree": False, "errors": r.errors,
+                        "explored_instead": {"interleavings": s["schedules"], "exhaustive": s["exhaustive"], "mode": "sleep-set DFS"},
+                        "failures": [{k: v for k, v in f.items() if k != "_cost"} for f in ex.violations.values()]
+                        + list(ex.validator.problems.values())})
+            return out
         if not r.deadlock:
             outcome = freeze((r.results, final_state(case, r.ctx["obj"])))
             out.update({"results": r.results, "final_state": final_state(case, r.ctx["obj"]),
@@ -1279,6 +1336,8 @@ def replay(case: dict) -> dict:
 
 
 def main(argv: list[str]) -> int:
+    if argv and argv[0] == "_worker":
+        return _worker_main()
     if len(argv) >= 2 and argv[0] == "replay":
         text = Path(argv[1]).read_text() if argv[1] != "-" else sys.stdin.read()
         print(json.dumps(replay(json.loads(text)), indent=1, default=str))
